@@ -218,9 +218,35 @@ func (c *Conversation) generateSMP1(question string) tlv {
 	return ret
 }
 
+// smpGroupElementsOK reports whether every value is in [2, p-2]; 0, 1 and p-1
+// (and anything outside the range) make the zero-knowledge proofs vacuous.
+func smpGroupElementsOK(vs ...*big.Int) bool {
+	for _, v := range vs {
+		if v.Cmp(g) < 0 || v.Cmp(pMinus2) > 0 {
+			return false
+		}
+	}
+	return true
+}
+
+// smpExponentsOK reports whether every value is in [1, q-1].
+func smpExponentsOK(vs ...*big.Int) bool {
+	for _, v := range vs {
+		if v.Sign() <= 0 || v.Cmp(q) >= 0 {
+			return false
+		}
+	}
+	return true
+}
+
+var errSMPRange = errors.New("otr: SMP value out of range")
+
 func (c *Conversation) processSMP1(mpis []*big.Int) error {
 	if len(mpis) != 6 {
 		return errors.New("otr: incorrect number of arguments in SMP1 message")
+	}
+	if !smpGroupElementsOK(mpis[0], mpis[3]) || !smpExponentsOK(mpis[2], mpis[5]) {
+		return errSMPRange
 	}
 	g2a := mpis[0]
 	c2 := mpis[1]
@@ -326,6 +352,10 @@ func (c *Conversation) generateSMP2() tlv {
 func (c *Conversation) processSMP2(mpis []*big.Int) (out tlv, err error) {
 	if len(mpis) != 11 {
 		err = errors.New("otr: incorrect number of arguments in SMP2 message")
+		return
+	}
+	if !smpGroupElementsOK(mpis[0], mpis[3], mpis[6], mpis[7]) || !smpExponentsOK(mpis[2], mpis[5], mpis[9], mpis[10]) {
+		err = errSMPRange
 		return
 	}
 	g2b := mpis[0]
@@ -450,6 +480,10 @@ func (c *Conversation) processSMP3(mpis []*big.Int) (out tlv, err error) {
 		err = errors.New("otr: incorrect number of arguments in SMP3 message")
 		return
 	}
+	if !smpGroupElementsOK(mpis[0], mpis[1], mpis[5]) || !smpExponentsOK(mpis[3], mpis[4], mpis[7]) {
+		err = errSMPRange
+		return
+	}
 	pa := mpis[0]
 	qa := mpis[1]
 	cp := mpis[2]
@@ -529,6 +563,9 @@ func (c *Conversation) processSMP3(mpis []*big.Int) (out tlv, err error) {
 func (c *Conversation) processSMP4(mpis []*big.Int) error {
 	if len(mpis) != 3 {
 		return errors.New("otr: incorrect number of arguments in SMP4 message")
+	}
+	if !smpGroupElementsOK(mpis[0]) || !smpExponentsOK(mpis[2]) {
+		return errSMPRange
 	}
 	rb := mpis[0]
 	cr := mpis[1]
